@@ -109,6 +109,24 @@ claim("C18",
       "dereferenced unguarded in the parsing cone.",
       "Not decided: net/url parsing, the yaml/reflection bridge, arbitrary malformed strings. README table is transcribed in the checker.")
 
+claim("C07",
+      "value-use rule on sequence-number SSA values, append/evict shape of the ack memory, lock pairing by must-pass-through, closures-invoked-under-lock channel rule, sibling agreement of ack plumbing, dominance of a positivity guard",
+      "Decides structural conditions without which the seq/ack design cannot be right for all histories: sequence/ack numbers are used only via ==, != and "
+      "+/- constants (rotation invariance = wrap safety); the bounded ack memory evicts from the head and every append is followed by the bound on all "
+      "paths; every Lock in the DNS packages is released (directly or by a passed defer) on every path to every return; closures invoked under a queue "
+      "mutex cannot block on a channel; outgoing acks are in.NextSeqNo-1 and incoming acks/packets reach out.UpdateAcked/in.Append of the same endpoint; "
+      "the chunking loop runs only where mtu > 0 holds. Not a delivery proof.",
+      "Not decided: delivery, retransmission convergence, duplicate suppression over real loss histories, liveness.")
+
+claim("C13",
+      "lock-region (held-set) analysis for table stores, dominance of session-state touches by the validation's err==nil edge, table-identity provenance of cleared slots, pointer-identity guard dominance",
+      "Decides the lock, guard and table-identity structure of DNS session isolation: all session-table stores are under usersLock and newUser's scan/assign/store "
+      "share one critical section; in every handler all stores to the session, calls on its queues and closeConnection are on the err==nil edge of "
+      "validateAndGetUser(request id, source address), which itself updates last-contact only after the address comparison and succeeds only for the owner's "
+      "address; a table slot is cleared only for a session read from that same table; closeConnection clears the live slot only after a pointer-identity test "
+      "with its occupant.",
+      "Not decided: interleavings of the unlocked table reads on the message path, expiry timing.")
+
 for pid in ["C01","C02","C03","C04","C05","C06","C07","C08","C09","C10","C11","C12","C13","C14","C15","C16","C17","C18"]:
     if pid not in P:
         na(pid, PENDING)
